@@ -34,6 +34,37 @@ def main():
         cells = [tuple(c) for c in cells]
         return set(cells) if kind == 'set' else (list(cells) if kind == 'list' else tuple(cells))
 
+    def pick_marks(hs, op, rng, dim):
+        # explicit marks for a generator op: always currently active cells
+        Lh = hs.numlevels
+        act = [sorted(hs.active_cells(l)) for l in range(Lh)]
+        lvls = [l for l in range(Lh) if act[l] and l <= op.get('maxlv', 2)]
+        if not lvls:
+            return []
+        kind = op['pick']
+        if kind == 'corner':
+            l = max(lvls)
+            corner = op['corner']
+            cells = sorted(act[l], key=lambda c: (sum((c[d] if corner[d] == 0 else -c[d]) for d in range(dim)), c))
+            return [[l, [list(c) for c in cells[:op.get('n', 1)]]]]
+        if kind == 'isolated':
+            l = rng.choice(lvls)
+            return [[l, [list(rng.choice(act[l]))]]]
+        if kind == 'nested':
+            l = max(lvls)
+            return [[l, [list(c) for c in rng.sample(act[l], min(len(act[l]), op.get('n', 1)))]]]
+        if kind == 'multi':
+            out = []
+            for l in lvls:
+                if rng.random() < 0.7:
+                    out.append([l, [list(c) for c in rng.sample(act[l], min(len(act[l]), rng.randint(1, 2)))]])
+            if not out:
+                out = [[lvls[0], [list(act[lvls[0]][0])]]]
+            rng.shuffle(out)
+            return out
+        l = rng.choice(lvls)
+        return [[l, [list(c) for c in rng.sample(act[l], min(len(act[l]), rng.randint(1, 4)))]]]
+
     def err(e):
         return '%s: %s' % (type(e).__name__, str(e)[:200])
 
@@ -82,8 +113,18 @@ def main():
             if cfg['bdspecs'] != 'default':
                 kw['bdspecs'] = None if cfg['bdspecs'] is None else [tuple(b) for b in cfg['bdspecs']]
             hs = hierarchical.HSpace(kvs, truncate=cfg['truncate'], disparity=disp, **kw)
+            import random as _random
+            rng = _random.Random(case.get('seed', 0))
+            explicit = []
             for op in case['ops']:
+                if 'pick' in op:
+                    marks = pick_marks(hs, op, rng, dim)
+                    if not marks:
+                        continue
+                    op = {'kind': 'refine', 'marks': marks, 'container': op.get('container', 'set'), 'trunc': bool(op.get('trunc'))}
+                explicit.append(op)
                 hs.refine({lv: container(op['container'], cells) for lv, cells in op['marks']}, truncate=bool(op.get('trunc')))
+            res['ops'] = explicit
             Lv = hs.numlevels
             res['L'] = Lv
             res['numdofs_lv'] = [[int(n) for n in hs.mesh(k).numdofs] for k in range(Lv)]
@@ -169,6 +210,18 @@ def main():
                                         if other and Ak[other].nnz:
                                             dev = max(dev, float(abs(Ak[other]).max()))
                                 fr['partial_rows_dev'] = dev
+                                amax = max([float(abs(A_).max()) if A_.nnz else 0.0 for A_ in lev] + [0.0])
+                                fr['amax'] = amax
+                                if 0.0 < dev <= 1e-12 * amax:
+                                    # the rows the hierarchical code assembled itself differ from the independent full
+                                    # assembly by rounding only: hand the model exactly the numbers that were used
+                                    for (k, rows, bbox, Ak) in calls:
+                                        if rows:
+                                            Lk = lev[k].tolil()
+                                            Lk[rows] = Ak[rows]
+                                            lev[k] = Lk.tocsr()
+                                    fr['lev'] = [sparse_rows(A_) for A_ in lev]
+                                    fr['lev_rows_substituted'] = True
                     else:
                         if fs.get('entry', 'assemble') == 'assemble':
                             b = assemble.assemble(vf, hs, **args)
